@@ -39,6 +39,7 @@ import (
 	"github.com/thushan/olla/internal/core/domain"
 	"github.com/thushan/olla/internal/core/ports"
 	"github.com/thushan/olla/internal/logger"
+	"github.com/thushan/olla/internal/verifhook"
 	"github.com/thushan/olla/pkg/pool"
 )
 
@@ -94,6 +95,11 @@ func NewService(
 		TLSHandshakeTimeout: DefaultTLSHandshakeTimeout,
 		MaxIdleConnsPerHost: DefaultMaxIdleConnsPerHost,
 		DialContext: func(ctx context.Context, network, addr string) (net.Conn, error) {
+			if verifhook.Enabled {
+				if c, handled, herr := verifhook.Dial(ctx, network, addr); handled {
+					return c, herr
+				}
+			}
 			dialer := &net.Dialer{
 				Timeout:   configuration.GetConnectionTimeout(),
 				KeepAlive: configuration.GetConnectionKeepAlive(),
